@@ -277,7 +277,7 @@ def _run_one(sc):
         return {}, 0, 'crash: ' + traceback.format_exc()[-600:]
 
 
-def native_replay(o=None):
+def native_replay(o=None, ntrials=300):
     """the documented counterexamples and a randomised search on the real functions (tmp dir)"""
     import tempfile, shutil, random
     import numpy as np
@@ -319,13 +319,19 @@ def native_replay(o=None):
             shutil.rmtree(d, ignore_errors=True)
         if bad:
             return bad, '\n'.join(lines)
-    for trial in range(200):
+    for trial in range(ntrials):
         d = tempfile.mkdtemp(prefix='c13_')
         try:
             slash = rng.random() < 0.5
             param = {'datapath': d + ('/' if slash else '')}
-            nd = rng.randint(1, 3)
-            its = rng.sample(range(0, 12), nd)
+            nd = rng.choice([1, 2, 3, 3, 4, 4, 5, 6, 8])
+            its = rng.sample(range(0, 40), nd)
+            if nd >= 4 and trial % 3 == 0:
+                # smallest first, largest last, the middle in arbitrary order (positional and by-iteration indexing differ
+                # although both ends agree)
+                mid = sorted(its)[1:-1]
+                rng.shuffle(mid)
+                its = [min(its)] + mid + [max(its)]
             data = {'it': list(its), 't': [float(i) for i in its], 'a': [np.full((2, 2), 10.0 * i + 1) for i in its],
                     'b': [np.full((2,), 10.0 * i + 2) for i in its]}
             sel = rng.sample(its, rng.randint(1, nd))
@@ -373,7 +379,7 @@ def native_replay(o=None):
         finally:
             shutil.rmtree(d, ignore_errors=True)
     if not bad:
-        lines.append('200 random save/read round trips on the real functions: all as specified')
+        lines.append(f'{ntrials} random save/read round trips on the real functions (dictionaries of 1-8 iterations in any order): all as specified')
     return bad, '\n'.join(lines)
 
 
@@ -386,6 +392,12 @@ def run(R):
     R.assume('A4', 'A6')
     R.trust('h5py contract as modelled in engine/fsmodel.py: file = map name -> array; create_dataset on an existing name / with data=None raises; os.path.exists reflects created files')
     R.trust('requires: the iteration values of data["it"] are distinct; the iterations passed to save_data are among them')
+    t0n = time.time()
+    ntr = 300 if R.tier == 'quick' else 3000
+    badn, textn = native_replay(None, ntr)
+    R.bounded.append(dict(function='aurel.save_data / aurel.read_data (native)', bound=f'{ntr} random round trips in temporary directories: dictionaries of 1-8 iterations in any order, subsets, levels, ragged None, requests naming t / it'))
+    R.ob('reading.roundtrip[native, random]:read_data(save_data(...)) == saved entries on real files', 'save_data', 'refuted' if badn else 'bounded-ok', 'bounded-native',
+         time.time() - t0n, textn if badn else f'{ntr} round trips', [textn[:200]] if badn else None, bounded=f'{ntr} random round trips', replay=lambda o: native_replay(o, ntr))
     from props import savevc
     savevc.save_obligations(R)          # unbounded: loop contracts on the real statements of save_data
     from props import readvc
